@@ -345,7 +345,15 @@ func (b *vb) sec2gmt(quick bool) {
 				x1 := b.mlr(c.args, []rec{r})
 				y1 := b.mlr([]string{"put", c.dsl}, []rec{r})
 				if x1.res.Stdout != y1.res.Stdout || x1.res.Exit != y1.res.Exit {
+					// failure class in the key: a known discrepancy on non-numbers must not mask one on numbers
+					b.keySuffix = " [numeric values]"
+					for _, f := range r {
+						if inList(strings.Split(c.args[len(c.args)-1], ","), f.k) && isStr(f.v) {
+							b.keySuffix = " [non-numeric value in a named field]"
+						}
+					}
 					b.fail(c.args[0]+"-dsl", c.args, []rec{r}, strings.TrimSpace(x1.res.Stdout), strings.TrimSpace(y1.res.Stdout)+"  (= mlr put '"+c.dsl+"')", "dsl: keystroke-saver verb and its documented DSL equivalent disagree")
+					b.keySuffix = ""
 					break
 				}
 			}
